@@ -77,7 +77,7 @@ def lex_duration(text):
             g = m.groups()
             vals = [int(x) for x in g] + [0, 0]
             two = all(len(x) == 2 for x in g[1:]) if form in ("hms", "ms") else (len(g[0]) >= 2 if form == "s" else True)
-            if max(vals) >= 2 ** 31:
+            if max(vals) >= 500000:                  # no duration up to 10^7 s prints such a field; keeps the judge's products inside 32 bits
                 break
             return {"form": form, "a": vals[0], "b": vals[1], "c": vals[2], "two": two}
     return {"form": "bad", "a": 0, "b": 0, "c": 0, "two": False}
@@ -233,8 +233,8 @@ def run(ctx):
                         "strings: XML-legal characters; U+000D anywhere and U+0009/U+000A (attribute position) are open known findings"]
     return ctx.finish(
         rule="G: every string of length <=3|4 over 15 symbols and <=5|6 over the interacting core (& < ' a m p ; l t) through xml_escape and the real parser; "
-             "every boundary duration (10 s, 60 s, 1 h, 10 h, 100 h, 10^7 s) x ms in {0,1,499,500,501,999}; V: every duration 0..20 s, random durations, "
-             "random strings of entity fragments, quotes, non-ASCII and whitespace controls; distinct = distinct inputs",
+             "every boundary duration (10 s, 60 s, 1 h, 10 h, 100 h, 10^7 s) x ms in {0,1,499,500,501,999}; V: every duration 0..20 s, random durations (also ones that are not whole milliseconds, judged to the microsecond), "
+             "random strings of entity fragments, quotes, non-ASCII and whitespace controls; four other correct escapers are fed through the judge as a soundness self-test; distinct = distinct inputs",
         explanation="TLC checks that five sequential replace passes equal the single-pass transducer and that decoding the escaped text gives back the original "
                     "for every enumerated string (incl. pre-escaped text), and that the branch structure of format_hms satisfies JudgeDuration at every boundary; "
                     "the real functions are judged by JudgeEscape + what lxml reads back, and JudgeDuration on the lexed output.")
